@@ -141,7 +141,8 @@ def render(e, ind=0, multiline=False):
         ms = " ".join("%s %s" % (m[0] or "_", mgr_text(m)) for m in e[1])
         return "(with [" + ms + "]" + body(e[2]) + ")"
     if k == "boom":
-        return {"plain": "(BOOM)", "macro-arg": "(wrap (BOOM))", "macro-template": "(mboom)", "shared-atom": "(mshared)", "py-twice": '(py "BOOM()")'}[e[1]]
+        return {"plain": "(BOOM)", "macro-arg": "(wrap (BOOM))", "macro-template": "(mboom)", "shared-atom": "(mshared)", "py-twice": '(py "BOOM()")',
+                "passthru-op": "(passthru :tag\n(+ BOOMER\n1))", "passthru-get": "(passthru :tag\n:tag\n(get BOOMER\n1))"}[e[1]]
     if k == "lfor":
         return "(lfor " + e[1] + " " + r(e[2]) + (" :if " + r(e[3]) if e[3] is not None else "") + " " + r(e[4]) + ")"
     raise ValueError("unknown form %r" % (k,))
@@ -685,6 +686,19 @@ def BOOM():
     raise XBOOM()
 
 
+class _Boomer:
+    """operand whose use by a core operator / subscript form raises XBOOM (C17: the raising form is then a core macro form)"""
+
+    def __add__(self, other):
+        raise XBOOM()
+
+    def __getitem__(self, k):
+        raise XBOOM()
+
+
+BOOMER = _Boomer()
+
+
 _EXC = {"XA": XA, "XB": XB, "XC": XC}
 
 
@@ -721,7 +735,7 @@ class Harness:
         return _CM()
 
     def namespace(self):
-        return dict(E=self.E, CM=self.CM, XA=XA, XB=XB, XC=XC, BOOM=BOOM)
+        return dict(E=self.E, CM=self.CM, XA=XA, XB=XB, XC=XC, BOOM=BOOM, BOOMER=BOOMER)
 
 
 def wrap_source(prog, mode, multiline=False):
